@@ -205,23 +205,24 @@ Proof.
       * rewrite !pairs_cons, IH. tauto.
 Qed.
 
-Lemma scoped_modify_extend_pairs m k0 all k n :
-  In (k, n) (scoped_pairs (scoped_modify_extend m k0 all)) ->
+Lemma sset_extend_in x v all : In x (sset_extend v all) <-> In x all \/ In x v.
+Proof. apply fold_sset_in. Qed.
+(* entry(k0).or_insert_with(BTreeSet::new).extend(all): exactly the old pairs plus (k0, n) for every n of all *)
+Lemma scoped_extend_pairs m k0 all k n :
+  In (k, n) (scoped_pairs (scoped_extend m k0 all)) <->
   In (k, n) (scoped_pairs m) \/ (k = k0 /\ In n all).
 Proof.
-  induction m as [|[k' v] m IH]; cbn [scoped_modify_extend]; [intros []|].
-  destruct (str_eqb k' k0) eqn:E.
-  - apply str_eqb_eq in E. subst k'. rewrite !pairs_cons, fold_sset_in. tauto.
-  - rewrite !pairs_cons. intros [H|H]; [tauto|]. apply IH in H. tauto.
+  induction m as [|[k' v] m IH]; cbn [scoped_extend].
+  - rewrite pairs_cons, sset_extend_in. cbn. tauto.
+  - destruct (str_eqb k' k0) eqn:E.
+    + apply str_eqb_eq in E. subst k'. rewrite !pairs_cons, sset_extend_in. tauto.
+    + destruct (str_ltb k0 k').
+      * rewrite (pairs_cons k0), sset_extend_in. cbn [In]. tauto.
+      * rewrite !pairs_cons, IH. tauto.
 Qed.
-Lemma scoped_modify_extend_mono m k0 all k n :
-  In (k, n) (scoped_pairs m) -> In (k, n) (scoped_pairs (scoped_modify_extend m k0 all)).
-Proof.
-  induction m as [|[k' v] m IH]; cbn [scoped_modify_extend]; [intros []|].
-  destruct (str_eqb k' k0) eqn:E.
-  - rewrite !pairs_cons, fold_sset_in. tauto.
-  - rewrite !pairs_cons. intros [H|H]; [tauto|]. right. now apply IH.
-Qed.
+Lemma scoped_extend_mono m k0 all k n :
+  In (k, n) (scoped_pairs m) -> In (k, n) (scoped_pairs (scoped_extend m k0 all)).
+Proof. intros H. apply scoped_extend_pairs. now left. Qed.
 
 Lemma crate_types_get_in ct k names : crate_types_get ct k = Some names -> In (k, names) ct.
 Proof.
@@ -244,7 +245,7 @@ Definition used_imports_step (ct : crate_types) (own : str) (m : scoped) (imp : 
   if str_eqb (base_crate imp) own then m
   else match crate_types_get ct (base_crate imp) with
        | Some type_names =>
-         if str_eqb (type_name imp) GLOB then scoped_modify_extend m (base_crate imp) type_names
+         if str_eqb (type_name imp) GLOB then scoped_extend m (base_crate imp) type_names
          else if mem_str (type_name imp) type_names then scoped_add m (base_crate imp) (type_name imp)
          else import_fallback ct own (type_name imp) m
        | None => import_fallback ct own (type_name imp) m
@@ -277,7 +278,7 @@ Proof.
   destruct (crate_types_get ct (base_crate imp)) as [names|] eqn:G; [|now apply import_fallback_sound].
   apply crate_types_get_in in G.
   destruct (str_eqb (type_name imp) GLOB).
-  - intros k n H. apply scoped_modify_extend_pairs in H as [H|[-> H]]; [now apply Hm|].
+  - intros k n H. apply scoped_extend_pairs in H as [H|[-> H]]; [now apply Hm|].
     split; [exact Hne|now exists names].
   - destruct (mem_str (type_name imp) names) eqn:M; [|now apply import_fallback_sound].
     intros k n H. apply scoped_add_pairs in H as [[-> ->]|H]; [|now apply Hm].
